@@ -13,7 +13,7 @@ correspondence driver evaluates is PROVED to be one (`evalOps_isPairing`, `evalO
   * the library's own signatures verify                                          (`sign_verifies`)
 and, over the concrete byte-level model: every coordinate `MarshalBinary` emits is a 32-byte
 big-endian number below p (for ALL limb values), G2 writes the imaginary part first, and
-`decodePubKey` / `Signature.ToBigInt` invert the encodings (`emitted_coordinates_canonical`, …);
+`decodePubKey` / `Signature.ToBigInt` invert the encodings (errors, never panics, on short input) (`emitted_coordinates_canonical`, …);
 the constants the predicate is built from are the EVM's (`gen_evm_constants`, by `decide` over
 facts regenerated from the source at every run).
 
@@ -235,15 +235,21 @@ theorem emitted_layout (xm ym a b c d : Nat)
     rfl, by simp [marshalG2M, emitCoord, be32_length]⟩
 
 /-- `Signature.ToBigInt` returns exactly the two emitted coordinates, and `decodePubKey` the four
-coordinates (imaginary, real, imaginary, real) of an emitted non-identity key; on the 1-byte
-identity encoding `decodePubKey` slices out of range (finding F12, C12's subject) -/
+coordinates (imaginary, real, imaginary, real) of an emitted non-identity key.  On the 1-byte encoding the
+library emits for the IDENTITY key `decodePubKey` answers with an error (/repo ae5b22f; before it the slice
+expression panicked), and so for every encoding shorter than 129 bytes; `ToBigInt` of fewer than 32 bytes is
+(0, 0) (/repo 6bcc55e); neither function panics on any byte string -/
 theorem coordinate_splitters_invert (xm ym a b c d : Nat)
     (hx : xm < 2 ^ 256) (hy : ym < 2 ^ 256)
     (ha : a < 2 ^ 256) (hb : b < 2 ^ 256) (hc : c < 2 ^ 256) (hd : d < 2 ^ 256) :
     sigToBigInt (marshalG1M (some (xm, ym))) = .ok (montDecode xm, montDecode ym) ∧
     decodePubKey (marshalG2M (some (a, b, c, d)))
       = .ok [montDecode a, montDecode b, montDecode c, montDecode d] ∧
-    (decodePubKey (marshalG2M none)).isPanic = true := by
+    decodePubKey (marshalG2M none) = .err .short ∧
+    (∀ enc : Bytes, enc.length < 129 → decodePubKey enc = .err .short) ∧
+    (∀ sig : Bytes, sig.length < 32 → sigToBigInt sig = .ok (0, 0)) ∧
+    (∀ enc : Bytes, (decodePubKey enc).isPanic = false) ∧
+    (∀ sig : Bytes, (sigToBigInt sig).isPanic = false) := by
   have l := be32_length
   have e1 := beNat_be32 _ (montDecode_lt xm hx)
   have e2 := beNat_be32 _ (montDecode_lt ym hy)
@@ -258,8 +264,11 @@ theorem coordinate_splitters_invert (xm ym a b c d : Nat)
   rw [wordsOf4] at w
   simp only [List.cons.injEq, and_true, List.append_nil] at w
   obtain ⟨w1, w2, w3, w4⟩ := w
-  refine ⟨?_, ?_, by decide⟩
-  · simp only [sigToBigInt, marshalG1M, emitCoord, List.length_append, l]
+  refine ⟨?_, ?_, by decide, ?_, ?_, ?_, ?_⟩
+  · have hlen : ¬ (marshalG1M (some (xm, ym))).length < 32 := by
+      simp [marshalG1M, emitCoord, l]
+    simp only [sigToBigInt, hlen, if_false]
+    simp only [marshalG1M, emitCoord]
     rw [List.take_append_of_le_length (by simp [l]), List.take_of_length_le (by simp [l]),
       List.drop_append_of_le_length (by simp [l]), List.drop_of_length_le (by simp [l]), e1]
     simp [e2]
@@ -273,6 +282,25 @@ theorem coordinate_splitters_invert (xm ym a b c d : Nat)
     simp only [List.drop_succ_cons, List.drop_zero]
     simp only [List.map_cons, List.map_nil, List.flatten_cons, List.flatten_nil, List.append_nil] at w1 w2 w3 w4 ⊢
     simp [w1, w2, w3, w4]
+  · intro enc h
+    have h' : enc.length < 32 * 4 + 1 := by omega
+    simp [decodePubKey, h']
+  · intro sig h
+    simp [sigToBigInt, h]
+  · intro enc
+    by_cases h : enc.length < 32 * 4 + 1
+    · simp [decodePubKey, h, Out.isPanic]
+    · have h1 : (1 ≤ 33 ∧ 33 ≤ enc.length) := by omega
+      have h2 : (33 ≤ 65 ∧ 65 ≤ enc.length) := by omega
+      have h3 : (65 ≤ 97 ∧ 97 ≤ enc.length) := by omega
+      have h4 : (97 ≤ 129 ∧ 129 ≤ enc.length) := by omega
+      simp [decodePubKey, h, sliceRange, h1, h2, h3, h4, Out.isPanic]
+  · intro sig
+    by_cases h : sig.length < 32 <;> simp [sigToBigInt, h, Out.isPanic]
+
+/-- a short signature and the identity key, evaluated (what the pre-repair model called a panic) -/
+example : sigToBigInt [1, 2, 3] = .ok (0, 0) ∧ decodePubKey [0] = .err .short ∧
+    sigToBigInt (List.replicate 31 7 ++ [1, 2]) = .ok (beNat (List.replicate 31 7 ++ [1]), 2) := by decide
 
 /-- on the concrete affine model (`Bls.evalOps`): **every signature `Sign` emits, for every secret
 key and every message, is the 64-byte canonical encoding of a point on y² = x³ + 3 with coordinates
@@ -318,7 +346,9 @@ theorem gen_generators_valid : G1.valid g1gen = true ∧ G2.onCurve g2gen = true
 /-- the shape of bls.go the model mirrors: legacy Keccak-256 (not SHA3-256), hash → scalar →
 base multiplication; `Verify` parses, NEGATES the signature and checks the pairs
 (s, HM) against (G2 base, X); `PairingCheck` skips identity pairs and tests
-`finalExponentiation(acc).IsOne()`; `Sign` marshals x·H(m) -/
+`finalExponentiation(acc).IsOne()`; `Sign` marshals x·H(m); which FIELD of the point is written at which byte
+OFFSET of the encoding (extracted structurally: `montDecode(tmp, &<copy of p.g>.x.y)` then `tmp.Marshal(ret[1+1*n:])`
+is "x.y@33" whatever the locals are called; `gfP2.x` is the imaginary part) -/
 theorem gen_bls_shape :
     Gen.Bls.hashToPoint_calls = ["sha3.NewLegacyKeccak256", "hash.Write", "hash.Sum",
       "suite.G1().Scalar().SetBytes", "suite.G1().Scalar", "suite.G1", "suite.G1().Point().Mul",
@@ -331,7 +361,7 @@ theorem gen_bls_shape :
     Gen.Bls.PairingCheck_calls = ["new", "acc.SetOne", "len", "ap.IsInfinity", "bp.IsInfinity", "acc.Mul",
       "miller", "finalExponentiation().IsOne", "finalExponentiation"] ∧
     Gen.Bls.PairingCheck_skipsIdentityPairs = true ∧
-    Gen.Codec.pointG2_marshalOrder = ["pgtemp.x.x", "pgtemp.x.y", "pgtemp.y.x", "pgtemp.y.y"] ∧
-    Gen.Codec.pointG1_marshalOrder = ["pgtemp.x", "pgtemp.y"] := by decide
+    Gen.Codec.pointG2_marshalLayout = ["x.x@1", "x.y@33", "y.x@65", "y.y@97"] ∧
+    Gen.Codec.pointG1_marshalLayout = ["x@0", "y@32"] := by decide
 
 end Dos.Props.C06
